@@ -172,7 +172,7 @@ def judge(A, b, used, rank, n, g, P_bar, ref):
     if np.any(n < 0) or not np.all(np.isfinite(n)):
         return 'negative-or-nonfinite-moles', '%r' % n.tolist()
     bal = n @ A - b
-    if np.max(np.abs(bal)) > 1e-7 * np.max(b):
+    if np.max(np.abs(bal)) > 1e-9 * np.max(b):
         return 'atoms-not-conserved', 'element totals %r vs feed %r (moles %r)' % ((n @ A).tolist(), b.tolist(), n.tolist())
     nt = x > 1e-3
     mu = g + np.log(np.maximum(x, 1e-300)) + lnP
